@@ -40,6 +40,7 @@ EXC_PARENTS = {
     "ValueError": "Exception", "StatisticsError": "ValueError", "TypeError": "Exception",
     "AttributeError": "Exception", "DSOLError": "Exception", "EventError": "Exception",
     "RuntimeError": "Exception", "NotImplementedError": "RuntimeError",
+    "CallbackError": "Exception",      # pseudo: whatever a listener callback raises
     "ComplexResult": "Exception",      # pseudo: a float operation that would yield a complex
     "AssertionError": "Exception",
 }
